@@ -929,6 +929,11 @@ func (fr *Frame) localEnv(st *State) *Env {
 
 func (fr *Frame) loopEntry(st *State, li *loopInfo) {
 	v := fr.v
+	// the state in which the loop is entered, for atloop(n, e) in its invariants
+	if fr.loopEntrySt == nil {
+		fr.loopEntrySt = map[int]*State{}
+	}
+	fr.loopEntrySt[li.ord] = st.clone()
 	invs := fr.loopClauses(li, "invariant")
 	if len(invs) == 0 {
 		v.note(fmt.Sprintf("loop %d of %s has no invariant (cut with 'true')", li.ord, fr.fn))
